@@ -132,8 +132,25 @@ def check_log(ctx, log, iname, fresh_solver=None, expect_restart=False):
     if atstart:
         ctx.ev("start-time-request")
     # (4) finite
+    allside = [(k, ev) for k, it in enumerate(its) for ev in it["side"]]
     for s in log.result:
         fin = all(np.all(np.isfinite(d)) for d in s["data"]) and np.isfinite(s["time"])
+        if not fin and fresh_solver is not None and iname != "gear":
+            # is it the bookkeeping (zero-length or misplaced side step) or the scheme itself?  Re-execute the side step that produced it on a
+            # fresh integrator: an unlimited reconstruction can leave the admissible set inside a stage for one dt and not for another
+            cand = [(k, ev) for k, ev in allside if ev["t1"] == s["time"] or (np.isnan(ev["t1"]) and not ev["finite"])]
+            if cand and float(np.min(cand[0][1]["dt"])) > 0 and cand[0][1]["t0"] == its[cand[0][0]]["from"]["time"]:
+                k, ev = cand[0]
+                with probes.quiet():
+                    g = fresh_solver["field"](its[k]["from"])
+                    try:
+                        fresh_solver["make"]().step(g, ev["dt"])
+                        refin = all(np.all(np.isfinite(d)) for d in g.data)
+                    except np.linalg.LinAlgError:
+                        refin = False
+                if not refin:
+                    ctx.skip("snapshot:scheme-itself-not-finite-for-this-forward-step")
+                    continue
         ctx.true("snapshot-finite", fin, "solve/snapshot-not-finite" + ("/request-at-trajectory-time" if any(s["time"] == t["time"] for t in traj) else ""),
                  {"time": s["time"]}, cls="snapshot-finite")
     # (3)+(7) origin of every snapshot: forward side step (0 <= dt <= CFL step) from the current trajectory state
